@@ -61,9 +61,9 @@ pub fn batches(prop: &str, thorough: bool) -> Vec<Batch> {
     let b16m: [u64; 7] = [0, 0, 0, 0, 0, 0, 1];
     let long: [u64; 7] = [0, 0, 10, 40, 50, 0, 0];
     let oversize = matches!(prop, "C01" | "C02" | "C05");
-    let mk = |name, subjects: &[K], faults, classes: [u64; 7], runs| Batch { name, cfg: GenCfg { subjects: subjects.to_vec(), faults, classes, oversize, deep: false }, runs };
+    let mk = |name, subjects: &[K], faults, classes: [u64; 7], runs| Batch { name, cfg: GenCfg { subjects: subjects.to_vec(), faults, classes, oversize, deep: false, pokes: prop == "C14" }, runs };
     // thorough tier only: a batch with much larger bounds
-    let deep = |name, subjects: &[K], classes: [u64; 7], runs| Batch { name, cfg: GenCfg { subjects: subjects.to_vec(), faults: false, classes, oversize, deep: true }, runs };
+    let deep = |name, subjects: &[K], classes: [u64; 7], runs| Batch { name, cfg: GenCfg { subjects: subjects.to_vec(), faults: false, classes, oversize, deep: true, pokes: prop == "C14" }, runs };
     let deepc: [u64; 7] = [0, 0, 10, 10, 80, 0, 0];
     let count_tables = [Xsdt, Mcfg, Madt, Rhct, Hest, Rimt];
     match prop {
